@@ -2,7 +2,7 @@
 from props import matlab_scope as ms, pyprops
 
 PID = 'C10'
-KEYS = []
+KEYS = ['MatlabWrapper.wrap_enum']
 
 
 def replay(obj):
@@ -20,6 +20,6 @@ def run(rep, args):
     ms.run(rep, n, PID)
     pyprops.report_regressions(rep, pr)
     rep.bounded['rule'] = 'same scope; the generated file tree is compared with the declared entities: one classdef per non-ignored class instantiation in its +package path (base or handle, pointer property, constructor, delete, one method per distinct name, statics, get/set per property), one function file per free function name, one enumeration classdef per enum with 0..n-1 numbering (class-scoped enums under +Class), exactly one MEX source with one collector per class, clean-up entry and RTTI registration iff virtual'
-    rep.explanation = 'toolbox contents are decided on the bounded scope by comparing the generated file tree with the entities declared by the reference semantics.'
+    rep.explanation = 'the enumeration classdef text (0..n-1 numbering in declared order) is proved for every enum; the rest of the toolbox contents are decided on the bounded scope by comparing the generated file tree with the entities declared by the reference semantics.'
     rep.assumptions += ['the abstract module is obtained through the real parser (C01 checks it separately)',
                         'MATLAB / MEX run-time semantics of the emitted text is not verified']
